@@ -84,6 +84,149 @@ Section Scalars.
   Qed.
 End Scalars.
 
+(* ---------- B2. readers decided by a slice of the stream ---------- *)
+(* `rd` needs exactly n bytes: with them it returns the decoding h of those bytes and ends n bytes later; without them it fails *)
+Definition sliced (rd : rfn) (n : Z) (h : list Z -> result value) : Prop :=
+  0 <= n /\ forall s pos ctx, 0 <= pos ->
+    (n <= zlen (srest s pos) -> rd s pos ctx = do v <- h (sread s pos n); Ok (v, pos + n)) /\
+    (zlen (srest s pos) < n -> exists er, rd s pos ctx = Err er).
+Lemma prim_sliced e p sz h : prim_size p = Some sz -> (forall a, prim_read e p a = do x <- split_at sz a; do v <- h (fst x); Ok (v, snd x)) ->
+  sliced (fun s pos _ => prim_read_at e p s pos) (Z.of_nat sz) h.
+Proof.
+  intros Hsz Hh. split; [lia|]. intros s pos ctx Hp. rewrite (prim_read_at_spec e p sz h Hsz Hh s pos Hp). split; intros L.
+  - apply Z.leb_le in L. now rewrite L.
+  - apply Z.leb_gt in L. rewrite L. eauto.
+Qed.
+(* k consecutive elements *)
+Fixpoint hn (h : list Z -> result value) (sz k : nat) (bs : list Z) : result (list value) :=
+  match k with O => Ok [] | S k' => do v <- h (firstn sz bs); do r <- hn h sz k' (skipn sz bs); Ok (v :: r) end.
+Lemma skipn_sread s pos a n : 0 <= pos -> 0 <= a -> 0 <= n -> skipn (Z.to_nat a) (sread s pos (a + n)) = sread s (pos + a) n.
+Proof.
+  intros Hp Ha Hn. unfold sread. rewrite skipn_firstn_comm, skipn_skipn'. f_equal; [lia|]. f_equal. lia.
+Qed.
+Lemma firstn_sread s pos a n : 0 <= a -> 0 <= n -> firstn (Z.to_nat a) (sread s pos (a + n)) = sread s pos a.
+Proof. intros Ha Hn. unfold sread. rewrite firstn_firstn. f_equal. lia. Qed.
+Lemma seq_n_hn rd sz h : sliced rd (Z.of_nat sz) h -> forall k s pos ctx, 0 <= pos ->
+  (Z.of_nat (k * sz) <= zlen (srest s pos) -> seq_n rd k s pos ctx = do vs <- hn h sz k (sread s pos (Z.of_nat (k * sz))); Ok (vs, pos + Z.of_nat (k * sz))) /\
+  (zlen (srest s pos) < Z.of_nat (k * sz) -> exists er, seq_n rd k s pos ctx = Err er).
+Proof.
+  intros [_ Hs]. induction k as [|k IH]; intros s pos ctx Hp.
+  - cbn [seq_n hn Nat.mul bind]. split; [intros _; f_equal; f_equal; lia|]. pose proof (zlen_nonneg (srest s pos)). cbn. lia.
+  - destruct (Hs s pos ctx Hp) as [He Hsh]. cbn [seq_n hn]. replace (Z.of_nat (S k * sz)) with (Z.of_nat sz + Z.of_nat (k * sz)) by lia. split; intros L.
+    + rewrite He by lia.
+      pose proof (firstn_sread s pos (Z.of_nat sz) (Z.of_nat (k * sz)) ltac:(lia) ltac:(lia)) as F. rewrite Nat2Z.id in F.
+      pose proof (skipn_sread s pos (Z.of_nat sz) (Z.of_nat (k * sz)) Hp ltac:(lia) ltac:(lia)) as G. rewrite Nat2Z.id in G. rewrite F, G.
+      destruct (h (sread s pos (Z.of_nat sz))) as [v|er]; cbn [bind fst snd]; [|reflexivity].
+      destruct (IH s (pos + Z.of_nat sz) ctx ltac:(lia)) as [IHe _]. rewrite IHe by (rewrite zlen_srest in * by lia; lia).
+      destruct (hn h sz k _); cbn [bind fst snd]; [f_equal; f_equal; lia|reflexivity].
+    + destruct (Z.le_gt_cases (Z.of_nat sz) (zlen (srest s pos))) as [L1|L1].
+      * rewrite He by lia. destruct (h _) as [v|er]; cbn [bind fst snd]; [|eauto].
+        destruct (IH s (pos + Z.of_nat sz) ctx ltac:(lia)) as [_ IHs]. destruct IHs as [er ->]; [rewrite zlen_srest in * by lia; lia|]. cbn. eauto.
+      * destruct (Hsh L1) as [er ->]. cbn. eauto.
+Qed.
+
+Section ArraySliced.
+  Variable c : cfg.
+  Variable fuel : nat.
+  Let e := c_endian c.
+
+  (* lists of k scalars read one after the other *)
+  Lemma seq_list_sliced p sz h k : prim_size p = Some sz -> (forall a, prim_read e p a = do x <- split_at sz a; do v <- h (fst x); Ok (v, snd x)) ->
+    sliced (fun s pos ctx => wrap_list (seq_n (fun s pos _ => prim_read_at e p s pos) k s pos ctx)) (Z.of_nat (k * sz)) (fun bs => do vs <- hn h sz k bs; Ok (VList vs)).
+  Proof.
+    intros Hsz Hh. split; [lia|]. intros s pos ctx Hp. destruct (seq_n_hn _ sz h (prim_sliced e p sz h Hsz Hh) k s pos ctx Hp) as [He Hs]. unfold wrap_list. split; intros L.
+    - rewrite (He L). destruct (hn h sz k _); reflexivity.
+    - destruct (Hs L) as [er ->]. cbn. eauto.
+  Qed.
+  Lemma sliced_ext rd rd' n h : (forall s pos ctx, 0 <= pos -> rd' s pos ctx = rd s pos ctx) -> sliced rd n h -> sliced rd' n h.
+  Proof. intros He [H0 H]. split; [exact H0|]. intros s pos ctx Hp. rewrite (He s pos ctx Hp). exact (H s pos ctx Hp). Qed.
+
+  (* the element classes of arrays a block holds *)
+  Definition eprim (t : ty) : option prim :=
+    match t with
+    | TPrim p _ => match p with PInt k _ _ => if (0 <? k)%nat then Some p else None | PFloat k => if (0 <? k)%nat then Some p else None | PChar | PWchar => Some p | _ => None end
+    | TEnum b _ _ _ => match b with PInt k _ _ => if (0 <? k)%nat then Some b else None | _ => None end
+    | TPtr _ => match c_ptr c with PInt k _ _ => if (0 <? k)%nat then Some (c_ptr c) else None | _ => None end
+    | _ => None
+    end.
+  Lemma eprim_facts el p : eprim el = Some p -> read_prim c el = Some p /\ (exists sz, prim_size p = Some sz /\ (0 < sz)%nat) /\
+    (match el with TStruct _ _ _ | TUnion _ _ _ | TArr _ _ => False | _ => True end) /\ ty_size c el = prim_size_z p /\
+    (forall s pos ctx, read_ty c fuel el s pos ctx = prim_read_at e p s pos).
+  Proof.
+    destruct el as [q al|b al fl ms|tg|el' len|nm fs al|nm fs al]; cbn [eprim]; intros H; try discriminate.
+    - destruct q as [k sg pk|k| | |sg|]; try discriminate; try (destruct (Nat.ltb_spec 0 k); [|discriminate]); injection H as <-; cbn; repeat split; eauto; eexists; split; eauto; lia.
+    - destruct b as [k sg pk|k| | |sg|]; try discriminate; destruct (Nat.ltb_spec 0 k); [|discriminate]; injection H as <-; cbn; repeat split; eauto.
+    - destruct (c_ptr c) as [k sg pk|k| | |sg|] eqn:Ep; try discriminate; destruct (Nat.ltb_spec 0 k); [|discriminate]; injection H as <-;
+        cbn [read_prim ty_size read_ty]; rewrite ?Ep; repeat split; eauto; exists k; split; [reflexivity|assumption].
+  Qed.
+
+  Lemma eprim_kind el p : eprim el = Some p -> is_packed p = true \/ is_bytebased p = true.
+  Proof.
+    destruct el as [q al|b al fl ms|tg|el' len|nm fs al|nm fs al]; cbn [eprim]; intros H; try discriminate.
+    - destruct q as [k sg pk|k| | |sg|]; try discriminate; try (destruct (0 <? k)%nat; [|discriminate]); injection H as <-; cbn; try destruct pk; auto.
+    - destruct b as [k sg pk|k| | |sg|]; try discriminate; destruct (0 <? k)%nat; [|discriminate]; injection H as <-; cbn; destruct pk; auto.
+    - destruct (c_ptr c) as [k sg pk|k| | |sg|]; try discriminate; destruct (0 <? k)%nat; [|discriminate]; injection H as <-; cbn; destruct pk; auto.
+  Qed.
+
+  Lemma array_sliced el p sz h n : eprim el = Some p -> prim_size p = Some sz ->
+    (forall a, prim_read e p a = do x <- split_at sz a; do v <- h (fst x); Ok (v, snd x)) -> 0 <= n -> n * Z.of_nat sz <= 9223372036854775807 ->
+    exists ha, sliced (read_ty c fuel (TArr el (LFixed n))) (n * Z.of_nat sz) ha /\
+      (is_packed p = true -> forall bs, ha bs = do vs <- hn h sz (Z.to_nat n) bs; Ok (VList vs)).
+  Proof.
+    intros Hel Hsz Hh Hn Hbig. destruct (eprim_facts el p Hel) as [_ [[sz' [Hsz' Hpos]] [_ [_ Hrd]]]]. rewrite Hsz in Hsz'. injection Hsz' as <-.
+    assert (Hmax : Z.max 0 n = n) by lia.
+    assert (Hgen : sliced (fun s pos ctx => wrap_list (seq_n (fun s pos _ => prim_read_at e p s pos) (Z.to_nat n) s pos ctx)) (n * Z.of_nat sz) (fun bs => do vs <- hn h sz (Z.to_nat n) bs; Ok (VList vs))).
+    { pose proof (seq_list_sliced p sz h (Z.to_nat n) Hsz Hh) as S. replace (Z.of_nat (Z.to_nat n * sz)) with (n * Z.of_nat sz) in S by nia. exact S. }
+    (* the generic element loop, capped *)
+    assert (Hcap : forall rd, (forall s pos ctx, rd s pos ctx = prim_read_at e p s pos) ->
+              sliced (fun s pos ctx => let cap := zlen (srest s pos) + 65 in
+                                       do r <- seq_n rd (Z.to_nat (Z.min n cap)) s pos ctx; if cap <? n then Err EOutOfFuel else Ok (VList (fst r), snd r))
+                     (n * Z.of_nat sz) (fun bs => do vs <- hn h sz (Z.to_nat n) bs; Ok (VList vs))).
+    { intros rd Hrd'. destruct Hgen as [H0 Hg]. split; [exact H0|]. intros s pos ctx Hp. destruct (Hg s pos ctx Hp) as [He Hs]. cbv zeta.
+      assert (Hseq : forall k, seq_n rd k s pos ctx = seq_n (fun s pos _ => prim_read_at e p s pos) k s pos ctx).
+      { intros k. revert pos Hp He Hs. clear -Hrd'. intros pos _ _ _. revert pos. induction k as [|k IH]; intros pos; cbn [seq_n]; [reflexivity|]. rewrite Hrd'.
+        destruct (prim_read_at e p s pos) as [[v q]|]; cbn [bind fst snd]; [|reflexivity]. now rewrite IH. }
+      rewrite Hseq. pose proof (zlen_nonneg (srest s pos)) as Hz. split; intros L.
+      - assert (Z.min n (zlen (srest s pos) + 65) = n) as -> by nia. assert (zlen (srest s pos) + 65 <? n = false) as -> by (apply Z.ltb_ge; nia).
+        specialize (He L). unfold wrap_list in He. destruct (seq_n _ (Z.to_nat n) s pos ctx) as [[vs q]|]; cbn [bind fst snd] in *; exact He.
+      - destruct (Z.ltb_spec (zlen (srest s pos) + 65) n) as [L2|L2].
+        + match goal with |- context [seq_n ?a ?b s pos ctx] => destruct (seq_n a b s pos ctx) end; cbn; eauto.
+        + assert (Z.min n (zlen (srest s pos) + 65) = n) as -> by lia. destruct (Hs L) as [er Her]. unfold wrap_list in Her.
+          destruct (seq_n _ (Z.to_nat n) s pos ctx) as [[vs q]|]; cbn [bind fst snd] in *; [discriminate|eauto]. }
+    (* the bulk path of packed scalars *)
+    assert (Hbulk : fixed_scalar p = Some sz -> sliced (fun s pos (_ : list (string * Z)) => wrap_list (packed_read_n c p n s pos)) (n * Z.of_nat sz) (fun bs => do vs <- hn h sz (Z.to_nat n) bs; Ok (VList vs))).
+    { intros Hfs. refine (sliced_ext _ _ _ _ _ Hgen). intros s pos ctx Hp. now rewrite (bulk_is_sequential c p sz Hfs n s pos ctx Hp Hn ltac:(lia)). }
+    destruct el as [q al|b al fl ms|tg|el' len|nm fs al|nm fs al]; cbn [eprim] in Hel; try discriminate.
+    - destruct q as [k sg pk|k| | |sg|]; try discriminate; try (destruct (0 <? k)%nat; [|discriminate]); injection Hel as <-.
+      + destruct pk.
+        * eexists. split; [|intros _ bs; reflexivity]. cbn [read_ty read_array read_count]. rewrite Hmax. apply (Hbulk Hsz).
+        * eexists. split; [|intros Hpk; discriminate]. cbn [read_ty read_array read_count]. rewrite Hmax. apply Hcap. intros; reflexivity.
+      + eexists. split; [|intros _ bs; reflexivity]. cbn [read_ty read_array read_count]. rewrite Hmax. apply (Hbulk Hsz).
+      + (* char[n] *)
+        cbn in Hsz. injection Hsz as <-. exists (fun bs => Ok (VBytes bs)). split; [|intros Hpk; discriminate].
+        split; [lia|]. intros s pos ctx Hp. cbn [read_ty read_array read_count]. rewrite Hmax. replace (n * Z.of_nat 1) with n by lia. unfold sread_exact.
+        destruct (Z.eqb_spec n 0) as [->|Hne].
+        * split; intros L; [|pose proof (zlen_nonneg (srest s pos)); lia]. rewrite sread_nil. cbn [bind]. f_equal. f_equal. lia.
+        * destruct (Z.ltb_spec 9223372036854775807 n) as [L0|_]; [lia|]. split; intros L.
+          -- apply Z.leb_le in L. now rewrite L.
+          -- apply Z.leb_gt in L. rewrite L. cbn. eauto.
+      + (* wchar[n] *)
+        cbn in Hsz. injection Hsz as <-. exists (fun bs => do cps <- utf16_decode (prim_endian PWchar e) bs; Ok (VWstr cps)). split; [|intros Hpk; discriminate].
+        split; [lia|]. intros s pos ctx Hp. cbn [read_ty read_array read_count]. rewrite Hmax. replace (n * Z.of_nat 2) with (2 * n) by lia. unfold sread_exact.
+        destruct (Z.eqb_spec n 0) as [->|Hne].
+        * split; intros L; [|pose proof (zlen_nonneg (srest s pos)); lia]. cbn [Z.mul]. rewrite sread_nil.
+          assert (D : forall en, utf16_decode en [] = Ok []) by (intros en; destruct en; reflexivity). rewrite D. cbn [bind]. f_equal. f_equal. lia.
+        * destruct (Z.ltb_spec 9223372036854775807 (2 * n)) as [L0|_]; [lia|]. split; intros L.
+          -- apply Z.leb_le in L. fold e. rewrite L. cbn [bind]. destruct (utf16_decode _ _); reflexivity.
+          -- apply Z.leb_gt in L. fold e. rewrite L. cbn. eauto.
+    - destruct b as [k sg pk|k| | |sg|]; try discriminate; destruct (0 <? k)%nat; [|discriminate]; injection Hel as <-. destruct pk.
+      + eexists. split; [|intros _ bs; reflexivity]. cbn [read_ty read_array read_count]. rewrite Hmax. apply (Hbulk Hsz).
+      + eexists. split; [|intros Hpk; discriminate]. cbn [read_ty read_array read_count]. rewrite Hmax. apply Hcap. intros; reflexivity.
+    - destruct (c_ptr c) as [k sg pk|k| | |sg|] eqn:Ep; try discriminate. destruct (0 <? k)%nat; [|discriminate]. injection Hel as <-.
+      eexists. split; [|intros Hpk bs; reflexivity]. cbn [read_ty read_array read_count]. rewrite Hmax. apply Hcap. intros s pos ctx. cbn [read_ty]. now rewrite Ep.
+  Qed.
+End ArraySliced.
+
 (* ---------- C. a block of scalar members is read member by member ---------- *)
 Definition push (st : pstate) (n : string) (v : value) (sz : Z) : pstate :=
   mkPS (p_pos st) (p_bb st) ((n, v) :: p_vals st) ((n, sz) :: p_sizes st) (int_ctx n v (p_ctx st)).
@@ -121,50 +264,141 @@ Section Block.
         (repeat split; try (eexists; reflexivity); try discriminate); try (destruct pk; auto); unfold prim_size_z; cbn; auto.
   Qed.
 
+  (* members a block holds: the scalars above and fixed-size arrays of scalars (char[n], wchar[n], packed and byte-sliced integers, floats, enums, pointers) *)
+  Definition bmem (t : ty) : option (prim * option Z) :=
+    match t with
+    | TArr el (LFixed n) => match eprim c el with Some p => if 0 <=? n then Some (p, Some n) else None | None => None end
+    | TArr _ _ => None
+    | _ => match bprim t with Some p => Some (p, None) | None => None end
+    end.
+  Definition msize (t : ty) : Z := match bmem t with Some (p, None) => psz p | Some (p, Some n) => n * psz p | None => 0 end.
+  Lemma psz_nonneg p : 0 <= psz p. Proof. unfold psz. destruct (prim_size p); lia. Qed.
+  Lemma msize_nonneg t : 0 <= msize t.
+  Proof.
+    unfold msize. destruct (bmem t) as [[p [n|]]|] eqn:E; try apply psz_nonneg; [|lia]. pose proof (psz_nonneg p).
+    destruct t as [q al|b al fl ms|tg|el len|nm fs al|nm fs al]; cbn [bmem] in E; try (destruct (bprim _); discriminate).
+    destruct len as [k| |]; try discriminate. destruct (eprim c el); [|discriminate]. destruct (Z.leb_spec 0 k); [|discriminate]. injection E as _ <-. nia.
+  Qed.
+
+  Definition mfacts (t : ty) (p : prim) (cnt : option Z) (sz : nat) (hp hm : list Z -> result value) : Prop :=
+      member_read c t = Ok (p, cnt) /\ prim_size p = Some sz /\
+      msize t = (match cnt with Some n => n | None => 1 end) * Z.of_nat sz /\ (match cnt with Some n => 0 <= n | None => True end) /\
+      ty_size c t = Some (msize t) /\ (is_packed p = true \/ is_bytebased p = true) /\
+      (forall a, prim_read e p a = do x <- split_at sz a; do v <- hp (fst x); Ok (v, snd x)) /\
+      sliced (read_ty c fuel t) (msize t) hm /\
+      (cnt = None -> forall bs, hm bs = hp bs) /\
+      (forall n, cnt = Some n -> is_packed p = true -> forall bs, hm bs = do vs <- hn hp sz (Z.to_nat n) bs; Ok (VList vs)) /\
+      supported (unwrap t) = true /\ ty_size c (unwrap t) = Some (msize t) /\
+      match unwrap t with TStruct _ _ _ | TUnion _ _ _ | TArr (TStruct _ _ _) _ | TArr (TUnion _ _ _) _ | TArr (TArr _ _) _ => False | _ => True end.
+  Lemma bmem_scalar t p : bprim t = Some p -> bmem t = Some (p, None) -> exists sz hp hm, mfacts t p None sz hp hm.
+  Proof.
+    intros Ep Hb. destruct (bprim_facts _ _ Ep) as [Hm [[n Hsz] [Hts [Hnv [Hk Hrd]]]]]. destruct (prim_split e p n Hsz) as [hp Hh].
+    assert (Hpz : psz p = Z.of_nat n) by (unfold psz; now rewrite Hsz).
+    assert (Hms : msize t = Z.of_nat n) by (unfold msize; now rewrite Hb).
+    exists n, hp, hp. unfold mfacts. rewrite Hms.
+    split; [exact Hm|]. split; [exact Hsz|]. split; [lia|]. split; [exact I|]. split; [now rewrite Hts, Hpz|]. split; [exact Hk|]. split; [exact Hh|].
+    split; [refine (sliced_ext _ _ _ _ _ (prim_sliced e p n hp Hsz Hh)); intros; apply Hrd|]. split; [reflexivity|]. split; [discriminate|].
+    destruct t as [q al|b al fl ms|tg|el len|nm fs al|nm fs al]; cbn [bprim] in Ep; try discriminate; cbn [unwrap supported].
+    - destruct q; try discriminate; injection Ep as <-; rewrite Hts, Hpz; auto.
+    - cbn [ty_size] in *. rewrite Hts, Hpz. destruct b; try discriminate. auto.
+    - rewrite Hts, Hpz. auto.
+  Qed.
+  Lemma bmem_facts t p cnt : bmem t = Some (p, cnt) -> msize t <= 9223372036854775807 -> exists sz hp hm, mfacts t p cnt sz hp hm.
+  Proof.
+    intros H Hbig.
+    destruct t as [q al|b al fl ms|tg|el len|nm fs al|nm fs al]; pose proof H as H'; revert H'; cbn [bmem];
+      try (destruct (bprim _) as [p0|] eqn:Ep; [|discriminate]; intros H'; injection H' as <- <-; exact (bmem_scalar _ _ Ep H)).
+    destruct len as [k| |]; try (intros X; discriminate X). destruct (eprim c el) as [p0|] eqn:Ee; [|intros X; discriminate X]. destruct (Z.leb_spec 0 k) as [Hk0|]; [|intros X; discriminate X]. intros H'. injection H' as <- <-.
+    destruct (eprim_facts c fuel el p0 Ee) as [Hrp [[sz [Hsz Hpos]] [Hshape [Hts Hrd]]]]. destruct (prim_split e p0 sz Hsz) as [hp Hh].
+    assert (Hpz : psz p0 = Z.of_nat sz) by (unfold psz; now rewrite Hsz).
+    assert (Hms : msize (TArr el (LFixed k)) = k * Z.of_nat sz) by (unfold msize; now rewrite H, Hpz). rewrite Hms in Hbig.
+    destruct (array_sliced c fuel el p0 sz hp k Ee Hsz Hh Hk0 Hbig) as [ha [Hsl Hpk]].
+    exists sz, hp, ha. unfold mfacts. rewrite Hms. cbn [member_read unwrap supported ty_size]. rewrite Hrp, Hts. unfold prim_size_z. rewrite Hsz. cbn [option_map].
+    split; [reflexivity|]. split; [reflexivity|]. split; [reflexivity|]. split; [exact Hk0|]. split; [reflexivity|].
+    split; [exact (eprim_kind c el p0 Ee)|].
+    split; [exact Hh|]. split; [exact Hsl|]. split; [discriminate|]. split; [intros n Hn; injection Hn as <-; exact Hpk|]. split; [reflexivity|]. split; [reflexivity|].
+    destruct el; try contradiction; exact I.
+  Qed.
+
   Fixpoint seq_block (B : list field) (s : list Z) (q : Z) (st : pstate) : result (pstate * Z) :=
     match B with
     | [] => Ok (st, q)
     | f :: r => do x <- rd f s q (p_ctx st); seq_block r s (snd x) (push st (f_name f) (fst x) (snd x - q))
     end.
-  Definition bsize (B : list field) : Z := fold_right (fun f acc => match bprim (f_ty f) with Some p => psz p | None => 0 end + acc) 0 B.
-  Lemma psz_nonneg p : 0 <= psz p. Proof. unfold psz. destruct (prim_size p); lia. Qed.
+  Definition bsize (B : list field) : Z := fold_right (fun f acc => msize (f_ty f) + acc) 0 B.
   Lemma bsize_nonneg B : 0 <= bsize B.
-  Proof. induction B as [|f r IH]; cbn [bsize fold_right]; [lia|]. fold (bsize r). destruct (bprim (f_ty f)); [pose proof (psz_nonneg p)|]; lia. Qed.
+  Proof. induction B as [|f r IH]; cbn [bsize fold_right]; [lia|]. fold (bsize r). pose proof (msize_nonneg (f_ty f)). lia. Qed.
 
-  (* struct_info without padding *)
+  Lemma sliced_ok rd' n h s pos ctx v p' : sliced rd' n h -> 0 <= pos -> rd' s pos ctx = Ok (v, p') -> p' = pos + n /\ n <= zlen (srest s pos) /\ h (sread s pos n) = Ok v.
+  Proof.
+    intros [H0 H] Hp Hr. destruct (H s pos ctx Hp) as [He Hs]. destruct (Z.le_gt_cases n (zlen (srest s pos))) as [L|L].
+    - rewrite (He L) in Hr. destruct (h (sread s pos n)) as [v0|]; [|discriminate]. cbn [bind] in Hr. injection Hr as <- <-. auto.
+    - destruct (Hs L) as [er Her]. congruence.
+  Qed.
+
+  Definition kind_ok (p : prim) : Prop := is_packed p = true \/ is_bytebased p = true.
   Definition own (f : field) : option field * Z * fc :=
-    match bprim (f_ty f) with
-    | Some p => if is_packed p then (Some f, 1, FP p) else (Some f, psz p, FX)
+    match bmem (f_ty f) with
+    | Some (p, cnt) => let n := match cnt with Some k => k | None => 1 end in if is_packed p then (Some f, n, FP p) else (Some f, n * psz p, FX)
     | None => (Some f, 0, FX)
     end.
   Fixpoint contig (cur : option Z) (B : list field) : Prop :=
     match B with
     | [] => True
-    | f :: r => match f_off f with None => True | Some o => cur = Some o end
-                /\ contig (option_map (Z.add (match bprim (f_ty f) with Some p => psz p | None => 0 end)) cur) r
+    | f :: r => match f_off f with None => True | Some o => cur = Some o end /\ contig (option_map (Z.add (msize (f_ty f))) cur) r
     end.
-  Lemma struct_info_scalars : forall B cur imag, Forall (fun f => bprim (f_ty f) <> None) B -> contig cur B ->
+  Definition inclass (B : list field) : Prop := Forall (fun f => bmem (f_ty f) <> None) B.
+
+  Lemma struct_info_members : forall B cur imag, inclass B -> bsize B <= 9223372036854775807 -> contig cur B ->
     struct_info c false B cur imag = Ok (map own B).
   Proof.
-    induction B as [|f r IH]; intros cur imag Hcl Hc; [reflexivity|]. inversion Hcl as [|? ? Hf Hr]; subst. destruct Hc as [Hn Hc].
-    destruct (bprim (f_ty f)) as [p|] eqn:Ep; [|contradiction]. destruct (bprim_facts _ _ Ep) as [Hm [[n Hsz] [Hts [Hnv [Hk _]]]]].
+    induction B as [|f r IH]; intros cur imag Hcl Hbig Hc; [reflexivity|]. inversion Hcl as [|? ? Hf Hr]; subst. destruct Hc as [Hn Hc].
+    cbn [bsize fold_right] in Hbig. fold (bsize r) in Hbig. pose proof (bsize_nonneg r) as Hbn. pose proof (msize_nonneg (f_ty f)) as Hmn.
+    destruct (bmem (f_ty f)) as [[p cnt]|] eqn:Ep; [|contradiction].
+    destruct (bmem_facts _ _ _ Ep ltac:(lia)) as [sz [hp [hm [Hm [Hsz [Hms [Hcnt [Hts [Hk _]]]]]]]]].
     cbn [struct_info map]. unfold own at 1. rewrite Ep.
     assert (D : match f_off f, cur with Some o, Some cu => Ok (Z.max 0 (o - cu)) | Some _, None => Err EType | None, _ => Ok 0 end = Ok 0).
     { destruct (f_off f) as [o|]; [|reflexivity]. rewrite Hn. f_equal. lia. }
     rewrite D. cbn [bind andb]. rewrite Hm. cbn [bind]. unfold prim_size_z. rewrite Hsz. cbn [option_map].
     assert (E1 : option_map (Z.add 0) cur = cur) by (destruct cur; cbn; f_equal).
     rewrite E1. cbn [Z.ltb Z.compare app]. rewrite Z.add_0_r.
-    assert (Hpz : psz p = Z.of_nat n) by (unfold psz; now rewrite Hsz). rewrite Hpz in Hc. replace (1 * Z.of_nat n) with (Z.of_nat n) by lia.
-    rewrite (IH _ _ Hr Hc). cbn [bind].
-    destruct p as [k sg pk|k| | |sg|]; try (exfalso; apply Hnv; reflexivity); try discriminate; cbn [is_packed is_bytebased]; try (destruct pk); cbn [app]; rewrite ?Hpz; try reflexivity;
-      cbn in Hsz; injection Hsz as <-; rewrite ?Z.mul_1_l; reflexivity.
+    assert (Hpz : psz p = Z.of_nat sz) by (unfold psz; now rewrite Hsz).
+    rewrite Hms in Hc. rewrite (IH _ (imag + match cnt with Some k => k | None => 1 end * Z.of_nat sz) Hr ltac:(lia) Hc). cbn [bind].
+    rewrite Hpz.
+    assert (Hnv : match cnt, p with None, PVoid => true | _, _ => false end = false) by (destruct Hk as [Hk|Hk]; destruct cnt, p; cbn in Hk; try discriminate; reflexivity).
+    destruct cnt as [k|]; destruct p as [a sg pk|a| | |sg|]; try discriminate Hnv; cbn [is_packed is_bytebased]; try (destruct pk); cbn [app]; try reflexivity;
+      destruct Hk as [Hk|Hk]; discriminate Hk.
   Qed.
+
   Definition bchars (B : list field) : list fc := expand (map (fun x => (snd (fst x), snd x)) (map own B)).
   Lemma bchars_cons f r : bchars (f :: r) = repeat (snd (own f)) (Z.to_nat (snd (fst (own f)))) ++ bchars r.
   Proof. reflexivity. Qed.
   Lemma unpack_skip : forall k l bs, unpack_fc c (repeat FX k ++ l) bs = unpack_fc c l (skipn k bs).
   Proof.
     induction k as [|k IH]; intros l bs; [reflexivity|]. cbn [repeat app unpack_fc]. rewrite IH, skipn_skipn'. reflexivity.
+  Qed.
+  Lemma hn_length h sz : forall k bs vs, hn h sz k bs = Ok vs -> length vs = k.
+  Proof.
+    induction k as [|k IH]; intros bs vs H; cbn [hn] in H; [now injection H as <-|]. destruct (h (firstn sz bs)); [|discriminate]. cbn [bind] in H.
+    destruct (hn h sz k (skipn sz bs)) as [r|] eqn:E; [|discriminate]. cbn [bind] in H. injection H as <-. cbn. now rewrite (IH _ _ E).
+  Qed.
+  Lemma hn_firstn h sz : forall k bs, (k * sz <= length bs)%nat -> hn h sz k (firstn (k * sz) bs) = hn h sz k bs.
+  Proof.
+    induction k as [|k IH]; intros bs H; [reflexivity|]. cbn [hn]. rewrite firstn_firstn. replace (Nat.min sz (S k * sz)) with sz by (cbn; lia).
+    destruct (h (firstn sz bs)); cbn [bind]; [|reflexivity]. replace (skipn sz (firstn (S k * sz) bs)) with (firstn (k * sz) (skipn sz bs)).
+    - rewrite IH; [reflexivity|]. rewrite skipn_length. cbn in H. lia.
+    - rewrite skipn_firstn_comm. f_equal. cbn. lia.
+  Qed.
+  Lemma unpack_fc_repeat p sz hp : (forall a, prim_read e p a = do x <- split_at sz a; do v <- hp (fst x); Ok (v, snd x)) ->
+    forall k l bs, (k * sz <= length bs)%nat ->
+      unpack_fc c (repeat (FP p) k ++ l) bs = do vs <- hn hp sz k bs; do rest <- unpack_fc c l (skipn (k * sz) bs); Ok (vs ++ rest).
+  Proof.
+    intros Hh. induction k as [|k IH]; intros l bs H; cbn [repeat app unpack_fc hn bind].
+    - cbn. destruct (unpack_fc c l bs); reflexivity.
+    - fold e. rewrite Hh. unfold split_at. assert (Nat.leb sz (length bs) = true) as -> by (apply Nat.leb_le; cbn in H; lia). cbn [bind fst snd].
+      destruct (hp (firstn sz bs)) as [v|]; cbn [bind]; [|reflexivity]. assert (Hk : (k * sz <= length (skipn sz bs))%nat) by (rewrite skipn_length; cbn in H; lia). cbn [fst snd]. rewrite (IH l (skipn sz bs) Hk).
+      destruct (hn hp sz k (skipn sz bs)) as [vs|]; cbn [bind]; [|reflexivity]. rewrite skipn_skipn'. replace (sz + k * sz)%nat with (S k * sz)%nat by (cbn; lia).
+      destruct (unpack_fc c l (skipn (S k * sz) bs)); reflexivity.
   Qed.
 
   Lemma block_items_uses : forall l a b i sz w, block_items c l a b true = Ok (i, sz, w) -> w = true.
@@ -179,160 +413,195 @@ Section Block.
   Qed.
 
   Lemma items_run : forall B size slice uses items size' u,
-    Forall (fun f => bprim (f_ty f) <> None) B -> 0 <= size -> 0 <= slice ->
+    inclass B -> bsize B <= 9223372036854775807 -> 0 <= size -> 0 <= slice ->
     block_items c (map own B) size slice uses = Ok (items, size', u) ->
-    size' = size + bsize B /\ (u = false -> forall bs, unpack_fc c (bchars B) bs = Ok []) /\ forall buf dpre drest st, size' <= zlen buf -> length dpre = Z.to_nat slice ->
+    size' = size + bsize B /\
+    (u = false -> forall bs, unpack_fc c (bchars B) bs = Ok []) /\
+    forall buf dpre drest st, size' <= zlen buf -> length dpre = Z.to_nat slice ->
       unpack_fc c (bchars B) (skipn (Z.to_nat size) buf) = Ok drest ->
       run_items rd buf (dpre ++ drest) items st = do r <- seq_block B buf size st; Ok (fst r).
   Proof.
-    unfold rd. induction B as [|f r IH]; intros size slice uses items size' u Hcl Hs Hsl H.
+    unfold rd. induction B as [|f r IH]; intros size slice uses items size' u Hcl Hbig Hs Hsl H.
     - cbn in H. injection H as <- <- <-. cbn [bsize fold_right]. split; [lia|]. split; [reflexivity|]. intros. reflexivity.
-    - inversion Hcl as [|? ? Hf Hr]; subst. destruct (bprim (f_ty f)) as [p|] eqn:Ep; [|contradiction].
-      destruct (bprim_facts _ _ Ep) as [Hm [[n Hsz] [Hts [Hnv [Hk Hrd]]]]]. destruct (prim_split e p n Hsz) as [h Hh].
-      assert (Hpz : psz p = Z.of_nat n) by (unfold psz; now rewrite Hsz).
-      cbn [map] in H. unfold own at 1 in H. rewrite Ep in H.
-      assert (Hown : exists cnt ch, (if is_packed p then (Some f, 1, FP p) else (Some f, psz p, FX)) = (Some f, cnt, ch)) by (destruct (is_packed p); eauto).
-      destruct Hown as [cnt [ch Hown]]. rewrite Hown in H. cbn [block_items] in H. rewrite Hm in H. cbn [bind] in H.
-      unfold prim_size_z in H. rewrite Hsz, Hts in H. cbn [option_map] in H. rewrite Hpz in H.
-      cbn [bsize fold_right]. fold (bsize r). rewrite Ep, Hpz.
+    - inversion Hcl as [|? ? Hf Hr]; subst.
+      cbn [bsize fold_right] in Hbig |- *. fold (bsize r) in Hbig |- *. pose proof (bsize_nonneg r) as Hbn. pose proof (msize_nonneg (f_ty f)) as Hmn.
+      destruct (bmem (f_ty f)) as [[p cnt]|] eqn:Ep; [|contradiction].
+      destruct (bmem_facts _ _ _ Ep ltac:(lia)) as [sz [hp [hm [Hm [Hsz [Hms [Hcnt [Hts [Hk [Hh [Hslc [Hsc [Har _]]]]]]]]]]]]].
+      assert (Hpz : psz p = Z.of_nat sz) by (unfold psz; now rewrite Hsz).
+      set (n' := match cnt with Some k => k | None => 1 end) in *.
+      assert (Hn' : 0 <= n') by (unfold n'; destruct cnt; lia).
+      cbn [map] in H. unfold own at 1 in H. rewrite Ep in H. fold n' in H.
+      assert (Hown : exists cn ch, (if is_packed p then (Some f, n', FP p) else (Some f, n' * psz p, FX)) = (Some f, cn, ch)) by (destruct (is_packed p); eauto).
+      destruct Hown as [cn [ch Hown]]. rewrite Hown in H. cbn [block_items] in H. rewrite Hm in H. cbn [bind] in H.
+      unfold prim_size_z in H. rewrite Hsz, Hts in H. cbn [option_map] in H.
       destruct (is_bytebased p) eqn:Eb.
       + (* sliced out of the buffer *)
         assert (Epk : is_packed p = false) by (destruct p as [? ? []| | | | |]; cbn in *; congruence).
-        destruct (block_items c (map own r) (size + Z.of_nat n) slice uses) as [[[its sz2] u2]|] eqn:E; [|discriminate]. cbn [bind] in H. injection H as <- <- <-.
-        assert (Hs2 : 0 <= size + Z.of_nat n) by lia. destruct (IH _ _ _ _ _ _ Hr Hs2 Hsl E) as [-> [Hu Hrun]]. split; [lia|].
-        assert (Hbc : bchars (f :: r) = repeat FX n ++ bchars r).
-        { rewrite bchars_cons. unfold own. rewrite Ep, Epk. cbn [fst snd]. now rewrite Hpz, Nat2Z.id. }
+        assert (Hg : exists X, (let '(g, slice', uses') := match cnt with
+                                 | Some n => (GBuf size (size + n * Z.of_nat sz), slice, uses) | None => (GBuf size (size + Z.of_nat sz), slice, uses) end in
+                                 do rest <- block_items c (map own r) (size + msize (f_ty f)) slice' uses'; let '(its, size'0, u0) := rest in Ok ((f, g, msize (f_ty f)) :: its, size'0, u0))
+                                = (do rest <- block_items c (map own r) (size + msize (f_ty f)) slice uses; let '(its, size'0, u0) := rest in Ok ((f, GBuf size (size + msize (f_ty f)), msize (f_ty f)) :: its, size'0, u0)) /\ X = 0).
+        { exists 0. split; [|reflexivity]. rewrite Hms. unfold n'. destruct cnt; cbv zeta; [reflexivity|]. now rewrite Z.mul_1_l. }
+        destruct Hg as [_ [Hg _]]. rewrite Hg in H. clear Hg.
+        destruct (block_items c (map own r) (size + msize (f_ty f)) slice uses) as [[[its sz2] u2]|] eqn:E; [|discriminate]. cbn [bind] in H. injection H as <- <- <-.
+        assert (Hs2 : 0 <= size + msize (f_ty f)) by lia.
+        destruct (IH _ _ _ _ _ _ Hr ltac:(lia) Hs2 Hsl E) as [-> [Hu Hrun]]. split; [lia|].
+        assert (Hbc : bchars (f :: r) = repeat FX (Z.to_nat (msize (f_ty f))) ++ bchars r).
+        { rewrite bchars_cons. unfold own. rewrite Ep, Epk. cbn [fst snd]. fold n'. now rewrite Hpz, Hms. }
         split.
         * intros Hfalse bs. rewrite Hbc, unpack_skip. now apply Hu.
         * intros buf dpre drest st Hlen Hdp Hun. rewrite Hbc, unpack_skip, skipn_skipn' in Hun.
-          replace (Z.to_nat size + n)%nat with (Z.to_nat (size + Z.of_nat n)) in Hun by lia.
-          cbn [run_items item_value seq_block fst snd]. unfold rd. rewrite !Hrd.
-          rewrite (prim_read_at_spec e p n h Hsz Hh _ _ Hs). rewrite (prim_read_at_spec e p n h Hsz Hh _ _ Hs).
-          pose proof (bsize_nonneg r) as Hbn.
-          assert (L1 : Z.of_nat n <=? zlen (srest (firstn (Z.to_nat (size + Z.of_nat n)) buf) size) = true).
-          { apply Z.leb_le. rewrite zlen_srest by exact Hs. unfold zlen in *. rewrite firstn_length. lia. }
-          assert (L2 : Z.of_nat n <=? zlen (srest buf size) = true) by (apply Z.leb_le; rewrite zlen_srest by exact Hs; lia).
-          rewrite L1, L2, sread_firstn by lia.
-          destruct (h (sread buf size (Z.of_nat n))) as [v|er]; cbn [bind fst snd]; [|reflexivity].
-          rewrite (Hrun buf dpre drest _ Hlen Hdp Hun). replace (size + Z.of_nat n - size) with (Z.of_nat n) by lia. reflexivity.
+          replace (Z.to_nat size + Z.to_nat (msize (f_ty f)))%nat with (Z.to_nat (size + msize (f_ty f))) in Hun by lia.
+          cbn [run_items item_value seq_block fst snd]. unfold rd.
+          destruct Hslc as [_ Hslc].
+          destruct (Hslc (firstn (Z.to_nat (size + msize (f_ty f))) buf) size (p_ctx st) Hs) as [He1 _].
+          destruct (Hslc buf size (p_ctx st) Hs) as [He2 _].
+          rewrite He1 by (rewrite zlen_srest by exact Hs; unfold zlen in *; rewrite firstn_length; lia).
+          rewrite He2 by (rewrite zlen_srest by exact Hs; lia). rewrite sread_firstn by lia.
+          destruct (hm (sread buf size (msize (f_ty f)))) as [v|er]; cbn [bind fst snd]; [|reflexivity].
+          rewrite (Hrun buf dpre drest _ Hlen Hdp Hun). replace (size + msize (f_ty f) - size) with (msize (f_ty f)) by lia. reflexivity.
       + (* taken from the unpacked tuple *)
         assert (Epk : is_packed p = true) by (destruct Hk; congruence).
-        destruct (block_items c (map own r) (size + Z.of_nat n) (slice + 1) true) as [[[its sz2] u2]|] eqn:E; [|discriminate]. cbn [bind] in H. injection H as <- <- <-.
-        assert (Hs2 : 0 <= size + Z.of_nat n) by lia. assert (Hsl2 : 0 <= slice + 1) by lia. destruct (IH _ _ _ _ _ _ Hr Hs2 Hsl2 E) as [-> [Hu Hrun]]. split; [lia|].
-        assert (Hbc : bchars (f :: r) = FP p :: bchars r).
+        assert (Hg : (let '(g, slice', uses') := match cnt with
+                                 | Some n => (GDataN slice (slice + n), slice + n, true) | None => (GData slice, slice + 1, true) end in
+                                 do rest <- block_items c (map own r) (size + msize (f_ty f)) slice' uses'; let '(its, size'0, u0) := rest in Ok ((f, g, msize (f_ty f)) :: its, size'0, u0))
+                      = (do rest <- block_items c (map own r) (size + msize (f_ty f)) (slice + n') true; let '(its, size'0, u0) := rest in
+                         Ok ((f, match cnt with Some n => GDataN slice (slice + n) | None => GData slice end, msize (f_ty f)) :: its, size'0, u0))).
+        { unfold n'. destruct cnt; reflexivity. }
+        rewrite Hg in H. clear Hg.
+        destruct (block_items c (map own r) (size + msize (f_ty f)) (slice + n') true) as [[[its sz2] u2]|] eqn:E; [|discriminate]. cbn [bind] in H. injection H as <- <- <-.
+        assert (Hs2 : 0 <= size + msize (f_ty f)) by lia. assert (Hsl2 : 0 <= slice + n') by lia.
+        destruct (IH _ _ _ _ _ _ Hr ltac:(lia) Hs2 Hsl2 E) as [-> [Hu Hrun]]. split; [lia|].
+        assert (Hbc : bchars (f :: r) = repeat (FP p) (Z.to_nat n') ++ bchars r).
         { rewrite bchars_cons. unfold own. rewrite Ep, Epk. reflexivity. }
         assert (Hu2 : u2 = true) by exact (block_items_uses _ _ _ _ _ _ E).
         split; [intros Hfalse; congruence|].
-        intros buf dpre drest st Hlen Hdp Hun. rewrite Hbc in Hun. cbn [unpack_fc] in Hun.
-        pose proof (bsize_nonneg r) as Hbn.
-        assert (L2 : Z.of_nat n <=? zlen (srest buf size) = true) by (apply Z.leb_le; rewrite zlen_srest by exact Hs; lia).
-        rewrite Hh in Hun. unfold split_at in Hun. fold (srest buf size) in Hun.
-        assert (Nat.leb n (length (srest buf size)) = true) as Hle by (apply Nat.leb_le; apply Z.leb_le in L2; unfold zlen in L2; lia).
-        rewrite Hle in Hun. cbn [bind fst snd] in Hun.
-        cbn [run_items item_value seq_block fst snd]. unfold rd. rewrite Hrd, (prim_read_at_spec e p n h Hsz Hh _ _ Hs), L2.
-        unfold sread. fold (srest buf size). rewrite Nat2Z.id.
-        destruct (h (firstn n (srest buf size))) as [v|er]; cbn [bind fst snd] in Hun |- *; [|discriminate].
-        destruct (unpack_fc c (bchars r) (skipn n (srest buf size))) as [vs|] eqn:Eu; [|discriminate]. cbn [bind] in Hun. injection Hun as <-.
-        assert (Hnth : nth_error (dpre ++ v :: vs) (Z.to_nat slice) = Some v).
-        { rewrite nth_error_app2 by lia. rewrite Hdp, Nat.sub_diag. reflexivity. }
-        rewrite Hnth. cbn [bind].
-        replace (dpre ++ v :: vs) with ((dpre ++ [v]) ++ vs) by (now rewrite <- app_assoc).
-        rewrite (Hrun buf (dpre ++ [v]) vs _ Hlen).
-        * replace (size + Z.of_nat n - size) with (Z.of_nat n) by lia. reflexivity.
-        * rewrite app_length. cbn [length]. lia.
-        * unfold srest in Eu. rewrite skipn_skipn' in Eu. replace (Z.to_nat (size + Z.of_nat n)) with (Z.to_nat size + n)%nat by lia. exact Eu.
-  Qed.
-  Lemma unpack_total : forall B bs, Forall (fun f => bprim (f_ty f) <> None) B -> bsize B <= zlen bs -> exists d, unpack_fc c (bchars B) bs = Ok d.
-  Proof.
-    induction B as [|f r IH]; intros bs Hcl Hlen; [now exists []|]. inversion Hcl as [|? ? Hf Hr]; subst.
-    destruct (bprim (f_ty f)) as [p|] eqn:Ep; [|contradiction]. destruct (bprim_facts _ _ Ep) as [_ [[n Hsz] [_ [_ [Hk _]]]]].
-    assert (Hpz : psz p = Z.of_nat n) by (unfold psz; now rewrite Hsz).
-    cbn [bsize fold_right] in Hlen. fold (bsize r) in Hlen. rewrite Ep, Hpz in Hlen. pose proof (bsize_nonneg r) as Hbn.
-    rewrite bchars_cons. unfold own. rewrite Ep. destruct (is_packed p) eqn:Epk; cbn [fst snd].
-    - assert (Hfs : fixed_scalar p = Some n) by (destruct p as [? ? ?|?| | |?|]; cbn in *; congruence).
-      destruct (fixed_read e p n Hfs) as [g Hg]. change (Z.to_nat 1) with 1%nat. cbn [repeat app unpack_fc]. unfold e in Hg. rewrite Hg. unfold split_at.
-      assert (Nat.leb n (length bs) = true) as -> by (apply Nat.leb_le; unfold zlen in Hlen; lia). cbn [bind fst snd].
-      destruct (IH (skipn n bs) Hr) as [d Hd]; [unfold zlen in *; rewrite skipn_length; lia|]. rewrite Hd. cbn [bind]. eauto.
-    - rewrite Hpz, Nat2Z.id, unpack_skip. apply IH; [exact Hr|]. unfold zlen in *. rewrite skipn_length. lia.
+        intros buf dpre drest st Hlen Hdp Hun. rewrite Hbc in Hun.
+        assert (Hfit : (Z.to_nat n' * sz <= length (skipn (Z.to_nat size) buf))%nat) by (rewrite skipn_length; unfold zlen in Hlen; nia).
+        rewrite (unpack_fc_repeat p sz hp Hh _ _ _ Hfit) in Hun.
+        destruct (hn hp sz (Z.to_nat n') (skipn (Z.to_nat size) buf)) as [vs|] eqn:Ehn; [|discriminate]. cbn [bind] in Hun.
+        destruct (unpack_fc c (bchars r) (skipn (Z.to_nat n' * sz) (skipn (Z.to_nat size) buf))) as [rest|] eqn:Eu; [|discriminate]. cbn [bind] in Hun. injection Hun as <-.
+        pose proof (hn_length _ _ _ _ _ Ehn) as Hvl.
+        rewrite skipn_skipn' in Eu. replace (Z.to_nat size + Z.to_nat n' * sz)%nat with (Z.to_nat (size + msize (f_ty f))) in Eu by nia.
+        cbn [run_items seq_block fst snd]. unfold rd.
+        destruct Hslc as [_ Hslc]. destruct (Hslc buf size (p_ctx st) Hs) as [He2 _]. rewrite He2 by (rewrite zlen_srest by exact Hs; lia).
+        assert (Hsr : sread buf size (msize (f_ty f)) = firstn (Z.to_nat n' * sz) (skipn (Z.to_nat size) buf)) by (unfold sread; f_equal; nia).
+        assert (Hval : item_value (fun f0 : field => read_ty c fuel (f_ty f0)) buf (dpre ++ vs ++ rest) (p_ctx st)
+                         (f, match cnt with Some n => GDataN slice (slice + n) | None => GData slice end, msize (f_ty f)) = hm (sread buf size (msize (f_ty f)))).
+        { rewrite Hsr. unfold n' in *. destruct cnt as [n|]; cbn [item_value].
+          - rewrite (Har n eq_refl Epk), hn_firstn, Ehn by exact Hfit. cbn [bind]. f_equal. f_equal.
+            rewrite skipn_app, <- Hdp, skipn_all, Nat.sub_diag. cbn [app skipn]. replace (Z.to_nat (slice + n - slice)) with (length vs) by lia.
+            rewrite firstn_app, firstn_all, Nat.sub_diag. cbn [firstn]. now rewrite app_nil_r.
+          - rewrite (Hsc eq_refl). change (Z.to_nat 1) with 1%nat in *. rewrite Nat.mul_1_l in *. cbn [hn] in Ehn.
+            destruct (hp (firstn sz (skipn (Z.to_nat size) buf))) as [v|]; [|discriminate]. cbn [bind] in Ehn. injection Ehn as <-.
+            rewrite nth_error_app2 by lia. rewrite Hdp, Nat.sub_diag. reflexivity. }
+        rewrite Hval. destruct (hm (sread buf size (msize (f_ty f)))) as [v|er]; cbn [bind fst snd]; [|reflexivity].
+        replace (dpre ++ vs ++ rest) with ((dpre ++ vs) ++ rest) by (now rewrite <- app_assoc).
+        rewrite (Hrun buf (dpre ++ vs) rest _ Hlen).
+        * replace (size + msize (f_ty f) - size) with (msize (f_ty f)) by lia. reflexivity.
+        * rewrite app_length. lia.
+        * exact Eu.
   Qed.
 
-  Lemma seq_block_end : forall B s q st st' q', 0 <= q -> Forall (fun f => bprim (f_ty f) <> None) B -> seq_block B s q st = Ok (st', q') -> q' = q + bsize B.
+  Lemma unpack_repeat_total p sz : fixed_scalar p = Some sz -> forall k l bs m,
+    (forall bs', (m <= length bs')%nat -> exists d, unpack_fc c l bs' = Ok d) -> (k * sz + m <= length bs)%nat -> exists d, unpack_fc c (repeat (FP p) k ++ l) bs = Ok d.
   Proof.
-    induction B as [|f r IH]; intros s q st st' q' Hq Hcl H; cbn [seq_block] in H.
-    - injection H as _ <-. cbn. lia.
-    - inversion Hcl as [|? ? Hf Hr]; subst. destruct (bprim (f_ty f)) as [p|] eqn:Ep; [|contradiction].
-      destruct (bprim_facts _ _ Ep) as [_ [[n Hsz] [_ [_ [_ Hrd]]]]]. destruct (prim_split e p n Hsz) as [h Hh].
-      assert (Hpz : psz p = Z.of_nat n) by (unfold psz; now rewrite Hsz).
-      unfold rd in H. rewrite Hrd, (prim_read_at_spec e p n h Hsz Hh _ _ Hq) in H.
-      destruct (Z.of_nat n <=? zlen (srest s q)); [|discriminate]. destruct (h _) as [v|]; [|discriminate]. cbn [bind fst snd] in H.
-      apply IH in H; [|lia|exact Hr]. cbn [bsize fold_right]. fold (bsize r). rewrite Ep, Hpz. lia.
+    intros Hfs. destruct (fixed_read e p sz Hfs) as [g Hg]. induction k as [|k IH]; intros l bs m Hl Hlen; cbn [repeat app]; [apply Hl; cbn in Hlen; lia|].
+    cbn [unpack_fc]. fold e. rewrite Hg. unfold split_at. assert (Nat.leb sz (length bs) = true) as -> by (apply Nat.leb_le; cbn in Hlen; lia). cbn [bind fst snd].
+    destruct (IH l (skipn sz bs) m Hl) as [d Hd]; [rewrite skipn_length; cbn in Hlen; lia|]. rewrite Hd. cbn [bind]. eauto.
   Qed.
-  Lemma seq_block_short : forall B s q st, 0 <= q -> Forall (fun f => bprim (f_ty f) <> None) B -> zlen (srest s q) < bsize B -> exists er, seq_block B s q st = Err er.
+  Lemma unpack_total : forall B bs, inclass B -> bsize B <= 9223372036854775807 -> bsize B <= zlen bs -> exists d, unpack_fc c (bchars B) bs = Ok d.
   Proof.
-    induction B as [|f r IH]; intros s q st Hq Hcl H; cbn [bsize fold_right] in H.
+    induction B as [|f r IH]; intros bs Hcl Hbig Hlen; [now exists []|]. inversion Hcl as [|? ? Hf Hr]; subst.
+    cbn [bsize fold_right] in Hbig, Hlen. fold (bsize r) in Hbig, Hlen. pose proof (bsize_nonneg r) as Hbn. pose proof (msize_nonneg (f_ty f)) as Hmn.
+    destruct (bmem (f_ty f)) as [[p cnt]|] eqn:Ep; [|contradiction].
+    destruct (bmem_facts _ _ _ Ep ltac:(lia)) as [sz [hp [hm [Hm [Hsz [Hms [Hcnt [Hts [Hk _]]]]]]]]].
+    assert (Hpz : psz p = Z.of_nat sz) by (unfold psz; now rewrite Hsz).
+    set (n' := match cnt with Some k => k | None => 1 end) in *. assert (Hn' : 0 <= n') by (unfold n'; destruct cnt; lia).
+    rewrite bchars_cons. unfold own. rewrite Ep. fold n'. destruct (is_packed p) eqn:Epk; cbn [fst snd].
+    - assert (Hfs : fixed_scalar p = Some sz) by (destruct p as [? ? ?|?| | |?|]; cbn in *; congruence).
+      apply (unpack_repeat_total p sz Hfs (Z.to_nat n') (bchars r) bs (Z.to_nat (bsize r))).
+      + intros bs' Hb. apply IH; [exact Hr|lia|unfold zlen; lia].
+      + unfold zlen in Hlen. nia.
+    - rewrite Hpz, <- Hms, unpack_skip. apply IH; [exact Hr|lia|]. unfold zlen in *. rewrite skipn_length. lia.
+  Qed.
+
+  Lemma seq_block_end : forall B s q st st' q', 0 <= q -> inclass B -> bsize B <= 9223372036854775807 -> seq_block B s q st = Ok (st', q') -> q' = q + bsize B.
+  Proof.
+    induction B as [|f r IH]; intros s q st st' q' Hq Hcl Hbig H; cbn [seq_block] in H.
+    - injection H as _ <-. cbn. lia.
+    - inversion Hcl as [|? ? Hf Hr]; subst. cbn [bsize fold_right] in Hbig |- *. fold (bsize r) in Hbig |- *. pose proof (bsize_nonneg r). pose proof (msize_nonneg (f_ty f)).
+      destruct (bmem (f_ty f)) as [[p cnt]|] eqn:Ep; [|contradiction].
+      destruct (bmem_facts _ _ _ Ep ltac:(lia)) as [sz [hp [hm [_ [_ [_ [_ [_ [_ [_ [Hslc _]]]]]]]]]]].
+      unfold rd in H. destruct (read_ty c fuel (f_ty f) s q (p_ctx st)) as [[v p']|] eqn:Er; [|discriminate]. cbn [bind fst snd] in H.
+      destruct (sliced_ok _ _ _ _ _ _ _ _ Hslc Hq Er) as [-> _]. apply IH in H; [lia|lia|exact Hr|lia].
+  Qed.
+  Lemma seq_block_short : forall B s q st, 0 <= q -> inclass B -> bsize B <= 9223372036854775807 -> zlen (srest s q) < bsize B -> exists er, seq_block B s q st = Err er.
+  Proof.
+    induction B as [|f r IH]; intros s q st Hq Hcl Hbig H; cbn [bsize fold_right] in H, Hbig.
     - pose proof (zlen_nonneg (srest s q)). lia.
-    - fold (bsize r) in H. inversion Hcl as [|? ? Hf Hr]; subst. destruct (bprim (f_ty f)) as [p|] eqn:Ep; [|contradiction].
-      destruct (bprim_facts _ _ Ep) as [_ [[n Hsz] [_ [_ [_ Hrd]]]]]. destruct (prim_split e p n Hsz) as [h Hh].
-      assert (Hpz : psz p = Z.of_nat n) by (unfold psz; now rewrite Hsz). rewrite Hpz in H.
-      cbn [seq_block]. unfold rd. rewrite Hrd, (prim_read_at_spec e p n h Hsz Hh _ _ Hq).
-      destruct (Z.leb_spec (Z.of_nat n) (zlen (srest s q))) as [L|L]; [|cbn; eauto]. destruct (h _) as [v|er]; cbn [bind fst snd]; [|eauto].
-      apply IH; [lia|exact Hr|]. rewrite zlen_srest in * by lia. lia.
+    - fold (bsize r) in H, Hbig. inversion Hcl as [|? ? Hf Hr]; subst. pose proof (bsize_nonneg r). pose proof (msize_nonneg (f_ty f)).
+      destruct (bmem (f_ty f)) as [[p cnt]|] eqn:Ep; [|contradiction].
+      destruct (bmem_facts _ _ _ Ep ltac:(lia)) as [sz [hp [hm [_ [_ [_ [_ [_ [_ [_ [Hslc _]]]]]]]]]]].
+      cbn [seq_block]. unfold rd. destruct (read_ty c fuel (f_ty f) s q (p_ctx st)) as [[v p']|] eqn:Er; cbn [bind fst snd]; [|eauto].
+      destruct (sliced_ok _ _ _ _ _ _ _ _ Hslc Hq Er) as [-> [Hen _]]. apply IH; [lia|exact Hr|lia|]. rewrite zlen_srest in * by lia. lia.
   Qed.
   (* reading the members from the block's buffer is reading them from the stream *)
-  Lemma seq_block_buf : forall B s pos n a st, 0 <= pos -> 0 <= a -> n <= zlen (srest s pos) -> a + bsize B <= n ->
-    Forall (fun f => bprim (f_ty f) <> None) B ->
+  Lemma seq_block_buf : forall B s pos n a st, 0 <= pos -> 0 <= a -> n <= zlen (srest s pos) -> a + bsize B <= n -> inclass B -> bsize B <= 9223372036854775807 ->
     seq_block B s (pos + a) st = do r <- seq_block B (sread s pos n) a st; Ok (fst r, pos + snd r).
   Proof.
-    induction B as [|f r IH]; intros s pos n a st Hp Ha Hn Hfit Hcl; cbn [seq_block bind fst snd]; [reflexivity|].
-    inversion Hcl as [|? ? Hf Hr]; subst. destruct (bprim (f_ty f)) as [p|] eqn:Ep; [|contradiction].
-    destruct (bprim_facts _ _ Ep) as [_ [[k Hsz] [_ [_ [_ Hrd]]]]]. destruct (prim_split e p k Hsz) as [h Hh].
-    assert (Hpz : psz p = Z.of_nat k) by (unfold psz; now rewrite Hsz).
-    cbn [bsize fold_right] in Hfit. fold (bsize r) in Hfit. rewrite Ep, Hpz in Hfit. pose proof (bsize_nonneg r) as Hbn.
-    unfold rd. rewrite !Hrd, !(prim_read_at_spec e p k h Hsz Hh) by lia.
-    assert (Hzb : zlen (sread s pos n) = n) by (apply zlen_sread; lia).
-    assert (L1 : Z.of_nat k <=? zlen (srest s (pos + a)) = true) by (apply Z.leb_le; rewrite zlen_srest in * by lia; lia).
-    assert (L2 : Z.of_nat k <=? zlen (srest (sread s pos n) a) = true) by (apply Z.leb_le; rewrite zlen_srest by lia; lia).
-    rewrite L1, L2, sread_sread by lia.
-    destruct (h (sread s (pos + a) (Z.of_nat k))) as [v|er]; cbn [bind fst snd]; [|reflexivity].
-    replace (pos + a + Z.of_nat k) with (pos + (a + Z.of_nat k)) by lia. rewrite (IH s pos n (a + Z.of_nat k)) by (try assumption; lia).
-    replace (pos + (a + Z.of_nat k) - (pos + a)) with (a + Z.of_nat k - a) by lia. reflexivity.
+    induction B as [|f r IH]; intros s pos n a st Hp Ha Hn Hfit Hcl Hbig; cbn [seq_block bind fst snd]; [reflexivity|].
+    inversion Hcl as [|? ? Hf Hr]; subst. cbn [bsize fold_right] in Hfit, Hbig. fold (bsize r) in Hfit, Hbig. pose proof (bsize_nonneg r) as Hbn. pose proof (msize_nonneg (f_ty f)) as Hmn.
+    destruct (bmem (f_ty f)) as [[p cnt]|] eqn:Ep; [|contradiction].
+    destruct (bmem_facts _ _ _ Ep ltac:(lia)) as [sz [hp [hm [_ [_ [_ [_ [_ [_ [_ [[_ Hslc] _]]]]]]]]]]].
+    unfold rd. assert (Hzb : zlen (sread s pos n) = n) by (apply zlen_sread; lia).
+    destruct (Hslc s (pos + a) (p_ctx st) ltac:(lia)) as [He1 _]. destruct (Hslc (sread s pos n) a (p_ctx st) Ha) as [He2 _].
+    rewrite He1 by (rewrite zlen_srest in * by lia; lia). rewrite He2 by (rewrite zlen_srest by lia; lia). rewrite sread_sread by lia.
+    destruct (hm (sread s (pos + a) (msize (f_ty f)))) as [v|er]; cbn [bind fst snd]; [|reflexivity].
+    replace (pos + a + msize (f_ty f)) with (pos + (a + msize (f_ty f))) by lia. rewrite (IH s pos n (a + msize (f_ty f))) by (try assumption; lia).
+    replace (pos + (a + msize (f_ty f)) - (pos + a)) with (a + msize (f_ty f) - a) by lia. reflexivity.
   Qed.
+
   Definition set_pos (st : pstate) (q : Z) : pstate := mkPS q (p_bb st) (p_vals st) (p_sizes st) (p_ctx st).
-  Lemma own_counts B : Forall (fun x : Z * fc => 0 <= fst x) (map (fun x => (snd (fst x), snd x)) (map own B)).
+  Lemma own_counts B : inclass B -> bsize B <= 9223372036854775807 -> Forall (fun x : Z * fc => 0 <= fst x) (map (fun x => (snd (fst x), snd x)) (map own B)).
   Proof.
-    induction B as [|f r IH]; cbn [map]; constructor; [|exact IH]. unfold own. destruct (bprim (f_ty f)) as [p|]; [|cbn; lia].
-    destruct (is_packed p); cbn [fst snd]; [lia|apply psz_nonneg].
+    induction B as [|f r IH]; intros Hcl Hbig; cbn [map]; constructor.
+    - inversion Hcl as [|? ? Hf Hr]; subst. cbn [bsize fold_right] in Hbig. fold (bsize r) in Hbig. pose proof (bsize_nonneg r).
+      unfold own. destruct (bmem (f_ty f)) as [[p cnt]|] eqn:Ep; [|contradiction]. destruct (bmem_facts _ _ _ Ep ltac:(pose proof (msize_nonneg (f_ty f)); lia)) as [sz [hp [hm [_ [_ [_ [Hcnt _]]]]]]].
+      pose proof (psz_nonneg p). destruct (is_packed p); cbn [fst snd]; destruct cnt; nia.
+    - inversion Hcl; subst. cbn [bsize fold_right] in Hbig. fold (bsize r) in Hbig. pose proof (msize_nonneg (f_ty f)). apply IH; [assumption|lia].
   Qed.
 
   (* ONE stream.read of the block's size, ONE struct.unpack of the optimised format, members taken by index or sliced out of the buffer:
      exactly reading the members one after the other from the stream (same values, recorded sizes, context, end position; fails iff that fails) *)
-  Theorem block_sound B i : Forall (fun f => bprim (f_ty f) <> None) B ->
+  Theorem block_sound B i : inclass B ->
     contig (match B with f :: _ => f_off f | [] => None end) B -> gen_block c false B = Ok i -> bsize B <= 9223372036854775807 ->
     forall s o al st, 0 <= p_pos st ->
       req (run_instr c rd s o al i st) (do r <- seq_block B s (p_pos st) st; Ok (set_pos (fst r) (snd r))).
   Proof.
-    intros Hcl Hc H Hbig s o al st Hp. unfold gen_block in H. rewrite (struct_info_scalars B _ 0 Hcl Hc) in H. cbn [bind] in H.
+    intros Hcl Hc H Hbig s o al st Hp. unfold gen_block in H. rewrite (struct_info_members B _ 0 Hcl Hbig Hc) in H. cbn [bind] in H.
     destruct (block_items c (map own B) 0 0 false) as [[[items size] uses]|] eqn:E; [|discriminate]. cbn [bind] in H. injection H as <-.
-    destruct (items_run B 0 0 false items size uses Hcl ltac:(lia) ltac:(lia) E) as [Hsize [Hu Hrun]]. rewrite Z.add_0_l in Hsize. subst size.
+    destruct (items_run B 0 0 false items size uses Hcl Hbig ltac:(lia) ltac:(lia) E) as [Hsize [Hu Hrun]]. rewrite Z.add_0_l in Hsize. subst size.
     pose proof (bsize_nonneg B) as Hbn.
     cbn [run_instr]. unfold sread_exact.
     destruct (Z.ltb_spec 9223372036854775807 (bsize B)) as [L|_]; [lia|].
     destruct (Z.leb_spec (bsize B) (zlen (srest s (p_pos st)))) as [L|L]; cbn [bind].
     - set (buf := sread s (p_pos st) (bsize B)).
       assert (Hzb : zlen buf = bsize B) by (apply zlen_sread; lia).
-      rewrite expand_optimize by apply own_counts. fold (bchars B).
-      destruct (unpack_total B buf Hcl ltac:(lia)) as [d Hd].
+      rewrite expand_optimize by (apply own_counts; assumption). fold (bchars B).
+      destruct (unpack_total B buf Hcl Hbig ltac:(lia)) as [d Hd].
       assert (Hdata : exists d', (if negb (negb uses && match optimize_fmt (map (fun x => (snd (fst x), snd x)) (map own B)) with [(n, FX)] => (1 <=? n) && (n <=? 9) | _ => false end)
                                   then unpack_fc c (bchars B) buf else Ok []) = Ok d' /\ unpack_fc c (bchars B) buf = Ok d').
       { destruct (negb _) eqn:En; [eauto|]. exists []. split; [reflexivity|]. apply Hu. apply Bool.negb_false_iff, andb_prop in En as [En _]. now apply Bool.negb_true_iff in En. }
       destruct Hdata as [d' [-> Hd']]. cbn [bind].
       pose proof (Hrun buf [] d' st ltac:(lia) eq_refl Hd') as R. cbn [app] in R. rewrite R.
-      pose proof (seq_block_buf B s (p_pos st) (bsize B) 0 st Hp ltac:(lia) L ltac:(lia) Hcl) as SB. rewrite Z.add_0_r in SB. fold buf in SB.
+      pose proof (seq_block_buf B s (p_pos st) (bsize B) 0 st Hp ltac:(lia) L ltac:(lia) Hcl Hbig) as SB. rewrite Z.add_0_r in SB. fold buf in SB.
       rewrite SB. destruct (seq_block B buf 0 st) as [[st' q]|er] eqn:E2; cbn [bind fst snd req]; [|exact I].
-      apply seq_block_end in E2; [|lia|exact Hcl]. subst q. unfold set_pos. f_equal; lia.
-    - destruct (seq_block_short B s (p_pos st) st Hp Hcl L) as [er ->]. exact I.
+      apply seq_block_end in E2; [|lia|exact Hcl|exact Hbig]. subst q. unfold set_pos. f_equal; lia.
+    - destruct (seq_block_short B s (p_pos st) st Hp Hcl Hbig L) as [er ->]. exact I.
   Qed.
 End Block.
+
 
 (* ---------- D. the generated plan against the interpreted structure loop ---------- *)
 Lemma req_bind' {A B} (a a' : result A) (f f' : A -> result B) : req a a' -> (forall x, a' = Ok x -> req (f x) (f' x)) -> req (bind a f) (bind a' f').
@@ -369,7 +638,7 @@ Section Plan.
     | TArr _ _ => is_none (ty_size c t)
     | _ => false
     end.
-  Definition cls (f : field) : Prop := f_bits f = None /\ (bprim c (f_ty f) <> None \/ is_sub (f_ty f) = true).
+  Definition cls (f : field) : Prop := f_bits f = None /\ (bmem c (f_ty f) <> None \/ is_sub (f_ty f) = true).
   (* the offsets the layout wrote back: the running offset while every earlier member has a static size *)
   Fixpoint offs_run (off : option Z) (fs : list field) : Prop :=
     match fs with
@@ -392,43 +661,34 @@ Section Plan.
   Qed.
 
   Lemma contig_app : forall B cur f, contig c cur B ->
-    (match f_off f with None => True | Some o => fold_left (fun cu g => option_map (Z.add (match bprim c (f_ty g) with Some p => psz p | None => 0 end)) cu) B cur = Some o end) ->
+    (match f_off f with None => True | Some o => fold_left (fun cu g => option_map (Z.add (msize c (f_ty g))) cu) B cur = Some o end) ->
     contig c cur (B ++ [f]).
   Proof.
     induction B as [|g r IH]; intros cur f Hc Hf; cbn [app contig fold_left] in *; [split; [exact Hf|exact I]|].
     destruct Hc as [H1 H2]. split; [exact H1|]. apply IH; assumption.
   Qed.
-  Lemma unwrap_size t p : bprim c t = Some p -> ty_size c (unwrap t) = Some (psz p) /\ supported (unwrap t) = true /\
-    (match unwrap t with TStruct _ _ _ | TUnion _ _ _ | TArr _ _ => False | _ => True end).
-  Proof.
-    intros H. destruct (bprim_facts c fuel _ _ H) as [_ [_ [Hts _]]].
-    destruct t as [q al|b al fl ms|tg|el len|nm fs al|nm fs al]; cbn [bprim] in H; try discriminate; cbn [unwrap supported].
-    - destruct q; try discriminate; injection H as <-; auto.
-    - destruct b; try discriminate; injection H as <-. cbn [ty_size] in *. auto.
-    - auto.
-  Qed.
-
-  Lemma plan_step_plain f st p : bprim c (f_ty f) = Some p -> f_bits f = None -> g_pbits st = false ->
+  Lemma plan_step_plain f st p cnt : bmem c (f_ty f) = Some (p, cnt) -> msize c (f_ty f) <= 9223372036854775807 -> f_bits f = None -> g_pbits st = false ->
     (forall o, f_off f = Some o -> g_block st <> [] -> o = g_off st) ->
     plan_step c false f st =
       (let '(ia, stA) := match g_block st with [] => align_to_field c false f st | _ => ([], st) end in
-       Ok (ia, mkGS (g_off stA + psz p) (g_block stA ++ [f]) (g_pbits stA) (g_btype stA) (g_brem stA) false (g_known stA))).
+       Ok (ia, mkGS (g_off stA + msize c (f_ty f)) (g_block stA ++ [f]) (g_pbits stA) (g_btype stA) (g_brem stA) false (g_known stA))).
   Proof.
-    intros Hp Hb Hpb Hoff. destruct (unwrap_size _ _ Hp) as [Hsz [Hsup Hshape]]. pose proof (psz_nonneg p) as Hnn.
-    unfold plan_step. rewrite Hsup, Hpb, Hsz. cbn [negb andb]. assert (psz p <? 0 = false) as -> by (apply Z.ltb_ge; lia).
+    intros Hp Hbig Hb Hpb Hoff. destruct (bmem_facts c fuel _ _ _ Hp Hbig) as [sz [hp [hm [_ [_ [_ [_ [_ [_ [_ [_ [_ [_ [Hsup [Hsz Hshape]]]]]]]]]]]]]]].
+    pose proof (msize_nonneg c (f_ty f)) as Hnn.
+    unfold plan_step. rewrite Hsup, Hpb, Hsz. cbn [negb andb]. assert (msize c (f_ty f) <? 0 = false) as -> by (apply Z.ltb_ge; lia).
     unfold bits_on. rewrite Hb.
     destruct st as [go gb gp gt gr gl gk]; cbn [g_block g_off g_pbits g_btype g_brem g_roll g_known has_block] in *.
     destruct (f_off f) as [o|] eqn:Eo.
     - destruct gb as [|g0 gb].
-      + destruct (unwrap (f_ty f)) as [q al|b al fl ms|tg|el len|nm fs al|nm fs al]; try contradiction; cbn [is_none has_block g_block andb bind fst snd app];
+      + destruct (unwrap (f_ty f)) as [q al|b al fl ms|tg|el len|nm fs al|nm fs al]; try contradiction; try (destruct el; try contradiction); cbn [is_none has_block g_block andb bind fst snd app];
           unfold align_to_field; rewrite Eo; cbn [g_off g_known g_block andb is_none app]; destruct (negb (o =? go) || negb gk);
           cbn [bind fst snd app g_off g_block g_pbits g_btype g_brem g_roll g_known is_none orb]; reflexivity.
       + pose proof (Hoff o eq_refl ltac:(discriminate)) as ->.
-        destruct (unwrap (f_ty f)) as [q al|b al fl ms|tg|el len|nm fs al|nm fs al]; try contradiction;
+        destruct (unwrap (f_ty f)) as [q al|b al fl ms|tg|el len|nm fs al|nm fs al]; try contradiction; try (destruct el; try contradiction);
           cbn [is_none has_block g_block g_off andb bind fst snd app]; rewrite Z.ltb_irrefl;
           cbn [bind fst snd app g_off g_block g_pbits g_btype g_brem g_roll g_known is_none orb]; reflexivity.
     - destruct gb as [|g0 gb];
-        destruct (unwrap (f_ty f)) as [q al|b al fl ms|tg|el len|nm fs al|nm fs al]; try contradiction; cbn [is_none has_block g_block andb bind fst snd app];
+        destruct (unwrap (f_ty f)) as [q al|b al fl ms|tg|el len|nm fs al|nm fs al]; try contradiction; try (destruct el; try contradiction); cbn [is_none has_block g_block andb bind fst snd app];
         unfold align_to_field; rewrite ?Eo; cbn [bind fst snd app g_off g_block g_pbits g_btype g_brem g_roll g_known is_none orb andb]; reflexivity.
   Qed.
   Definition after_sub (f : field) (stc : gstate) : gstate :=
@@ -460,10 +720,10 @@ Section Plan.
   Qed.
   Definition hoff (B : list field) : option Z := match B with f :: _ => f_off f | [] => None end.
   Definition cend (cur : option Z) (B : list field) : option Z :=
-    fold_left (fun cu g => option_map (Z.add (match bprim c (f_ty g) with Some p => psz p | None => 0 end)) cu) B cur.
+    fold_left (fun cu g => option_map (Z.add (msize c (f_ty g))) cu) B cur.
   Lemma set_pos_id st : set_pos st (p_pos st) = st. Proof. destruct st; reflexivity. Qed.
 
-  Lemma flush_sound gst Pf gst2 st : Forall (fun f => bprim c (f_ty f) <> None) (g_block gst) -> contig c (hoff (g_block gst)) (g_block gst) ->
+  Lemma flush_sound gst Pf gst2 st : inclass c (g_block gst) -> contig c (hoff (g_block gst)) (g_block gst) ->
     bsize c (g_block gst) <= 9223372036854775807 -> 0 <= p_pos st -> flush c false gst = Ok (Pf, gst2) ->
     req (run_instrs c rd s start cal Pf st) (seq_blockS (g_block gst) st) /\
     gst2 = mkGS (g_off gst) [] (g_pbits gst) (g_btype gst) (g_brem gst) (g_roll gst) (g_known gst).
@@ -479,13 +739,13 @@ Section Plan.
     (f_off f = None -> p_pos st = p_pos st') -> read_member f st = read_member f st'.
   Proof. intros H1 H2 H3 H4 H5. unfold read_member. rewrite H1, H2, H3, H4. destruct (f_off f); [reflexivity|]. now rewrite H5. Qed.
 
-  Lemma blockS_snoc B f st : Forall (fun g => bprim c (f_ty g) <> None) B -> 0 <= p_pos st ->
+  Lemma blockS_snoc B f st : inclass c B -> bsize c B <= 9223372036854775807 -> 0 <= p_pos st ->
     (forall o, f_off f = Some o -> p_pos st + bsize c B = start + o) ->
     seq_blockS (B ++ [f]) st = do st1 <- seq_blockS B st; read_member f st1.
   Proof.
-    intros Hcl Hp Ho. unfold seq_blockS. rewrite seq_block_app.
+    intros Hcl Hbg Hp Ho. unfold seq_blockS. rewrite seq_block_app.
     destruct (seq_block c fuel B s (p_pos st) st) as [[st1 q1]|] eqn:E; cbn [bind fst snd]; [|reflexivity].
-    pose proof (seq_block_end c fuel B s _ _ _ _ Hp Hcl E) as Hq. destruct (seq_block_pos B _ _ _ _ E) as [_ Hbb].
+    pose proof (seq_block_end c fuel B s _ _ _ _ Hp Hcl Hbg E) as Hq. destruct (seq_block_pos B _ _ _ _ E) as [_ Hbb].
     unfold read_member. cbn [set_pos p_pos p_ctx p_bb p_vals p_sizes].
     assert (Hq' : (match f_off f with Some fo => start + fo | None => q1 end) = q1) by (destruct (f_off f) as [o|]; [rewrite <- (Ho o eq_refl); lia|reflexivity]).
     rewrite Hq'. destruct (rd f s q1 (p_ctx st1)) as [[v p]|]; reflexivity.
@@ -494,17 +754,17 @@ Section Plan.
   Definition sub_ok (f : field) : Prop :=
     (forall n, ty_size c (f_ty f) = Some n -> 0 <= n) /\
     (forall s' pos ctx v p, 0 <= pos -> read_ty c fuel (f_ty f) s' pos ctx = Ok (v, p) -> 0 <= p).
-  Definition cls' (f : field) : Prop := f_bits f = None /\ (bprim c (f_ty f) <> None \/ (is_sub (f_ty f) = true /\ sub_ok f)).
+  Definition cls' (f : field) : Prop := f_bits f = None /\ (bmem c (f_ty f) <> None \/ (is_sub (f_ty f) = true /\ sub_ok f)).
 
-  Lemma cend_snoc cur B f : cend cur (B ++ [f]) = option_map (Z.add (match bprim c (f_ty f) with Some p => psz p | None => 0 end)) (cend cur B).
+  Lemma cend_snoc cur B f : cend cur (B ++ [f]) = option_map (Z.add (msize c (f_ty f))) (cend cur B).
   Proof. unfold cend. now rewrite fold_left_app. Qed.
-  Lemma bsize_snoc B f : bsize c (B ++ [f]) = bsize c B + match bprim c (f_ty f) with Some p => psz p | None => 0 end.
+  Lemma bsize_snoc B f : bsize c (B ++ [f]) = bsize c B + msize c (f_ty f).
   Proof. induction B as [|g r IH]; cbn [app bsize fold_right]; [lia|]. fold (bsize c (r ++ [f])). fold (bsize c r). rewrite IH. lia. Qed.
 
   Lemma plan_loop : forall fs off gst st P gst' Pf gst'',
     Forall cls' fs -> offs_run off fs ->
     g_pbits gst = false ->
-    Forall (fun f => bprim c (f_ty f) <> None) (g_block gst) ->
+    inclass c (g_block gst) ->
     contig c (hoff (g_block gst)) (g_block gst) ->
     (g_block gst <> [] -> cend (hoff (g_block gst)) (g_block gst) = off) ->
     (forall x, off = Some x -> 0 <= x /\ g_off gst = x /\ (g_block gst <> [] -> g_known gst = true)) ->
@@ -523,14 +783,14 @@ Section Plan.
       destruct (plan_go c false r gst1) as [[P2 gst2]|] eqn:E2; [|discriminate]. cbn [bind fst snd] in HP. injection HP as <- <-.
       pose proof (bsize_nonneg c fuel (g_block gst)) as HbB. pose proof (bsize_nonneg c fuel r) as Hbr.
       cbn [bsize fold_right] in Hbound. fold (bsize c r) in Hbound.
-      destruct (bprim c (f_ty f)) as [p|] eqn:Ep.
+      destruct (bmem c (f_ty f)) as [[p cnt]|] eqn:Ep.
       + (* a scalar member: joins the block *)
-        clear Hkind. pose proof (psz_nonneg p) as Hpz.
-        destruct (unwrap_size _ _ Ep) as [_ _]. destruct (bprim_facts c fuel _ _ Ep) as [_ [_ [Hts _]]].
+        clear Hkind. pose proof (msize_nonneg c (f_ty f)) as Hpz. assert (Hmb : msize c (f_ty f) <= 9223372036854775807) by lia.
+        destruct (bmem_facts c fuel _ _ _ Ep Hmb) as [sz0 [hp0 [hm0 [_ [_ [_ [_ [Hts _]]]]]]]].
         rewrite Hts in Hoffs.
         assert (Hcond : forall o, f_off f = Some o -> g_block gst <> [] -> o = g_off gst).
         { intros o Ho _. rewrite Hfo in Ho. now destruct (Hoff o Ho) as [_ [-> _]]. }
-        rewrite (plan_step_plain f gst p Ep Hbits Hpb Hcond) in E1.
+        rewrite (plan_step_plain f gst p cnt Ep Hmb Hbits Hpb Hcond) in E1.
         destruct (g_block gst) as [|b0 B] eqn:EB.
         * (* the block starts here *)
           unfold align_to_field in E1. cbn [andb app] in E1.
@@ -543,68 +803,69 @@ Section Plan.
                 refine (req_trans _ _ _ (IH _ _ st _ _ _ _ Hcr Hoffs _ _ _ _ _ _ Hpos Hstart _ E2 HF) _); cbn [g_pbits g_block g_off g_known app hoff]; rewrite ?EB; cbn [app hoff bsize fold_right].
                 all: try rewrite Ep.
                 ** exact Hpb.
-                ** constructor; [congruence|constructor].
+                ** unfold inclass; constructor; [congruence|constructor].
                 ** cbn [contig]. rewrite Eo. split; [reflexivity|exact I].
-                ** intros _. unfold cend. cbn [fold_left]. rewrite Ep, Eo, <- Hfo. cbn [option_map]. try (f_equal; lia); reflexivity.
+                ** intros _. unfold cend. cbn [fold_left]. rewrite Eo, <- Hfo. cbn [option_map]. try (f_equal; lia); reflexivity.
                 ** intros x Hx. rewrite <- Hfo in Hx. cbn [option_map] in Hx. injection Hx as <-. repeat split; try lia; intros _; first [exact Ek|reflexivity].
                 ** intros _. lia.
                 ** lia.
                 ** assert (Hs : seq_blockS [f] st = do st1 <- seq_blockS [] st; read_member f st1)
-                     by (apply (blockS_snoc [] f st (Forall_nil _) Hpos); intros o Ho; rewrite Eo in Ho; injection Ho as <-; cbn [bsize fold_right]; lia).
+                     by (apply (blockS_snoc [] f st (Forall_nil _) ltac:(cbn [bsize fold_right]; lia) Hpos); intros o Ho; rewrite Eo in Ho; injection Ho as <-; cbn [bsize fold_right]; lia).
                    rewrite Hs. apply req_refl.
              ++ cbn [app run_instrs run_instr bind].
                 set (st' := mkPS (start + g_off gst) (p_bb st) (p_vals st) (p_sizes st) (p_ctx st)).
                 refine (req_trans _ _ _ (IH _ _ st' _ _ _ _ Hcr Hoffs _ _ _ _ _ _ _ Hstart _ E2 HF) _); cbn [g_pbits g_block g_off g_known app hoff p_pos st']; rewrite ?EB; cbn [app hoff bsize fold_right].
                 all: try rewrite Ep.
                 ** exact Hpb.
-                ** constructor; [congruence|constructor].
+                ** unfold inclass; constructor; [congruence|constructor].
                 ** cbn [contig]. rewrite Eo. split; [reflexivity|exact I].
-                ** intros _. unfold cend. cbn [fold_left]. rewrite Ep, Eo, <- Hfo. cbn [option_map]. try (f_equal; lia); reflexivity.
+                ** intros _. unfold cend. cbn [fold_left]. rewrite Eo, <- Hfo. cbn [option_map]. try (f_equal; lia); reflexivity.
                 ** intros x Hx. rewrite <- Hfo in Hx. cbn [option_map] in Hx. injection Hx as <-. repeat split; try lia; intros _; first [exact Ek|reflexivity].
                 ** intros _. lia.
                 ** lia.
                 ** lia.
                 ** assert (Hs : seq_blockS [f] st' = do st1 <- seq_blockS [] st'; read_member f st1)
-                     by (apply (blockS_snoc [] f st' (Forall_nil _)); cbn [p_pos st' bsize fold_right]; try lia; intros o Ho; rewrite Eo in Ho; injection Ho as <-; lia).
+                     by (apply (blockS_snoc [] f st' (Forall_nil _) ltac:(cbn [bsize fold_right]; lia)); cbn [p_pos st' bsize fold_right]; try lia; intros o Ho; rewrite Eo in Ho; injection Ho as <-; lia).
                    rewrite Hs. unfold seq_blockS. cbn [seq_block bind fst snd]. rewrite !set_pos_id.
                    rewrite (read_member_pos f st' st) by (try reflexivity; intros Hn; rewrite Eo in Hn; discriminate). apply req_refl.
           -- cbn [app] in E1. injection E1 as <- <-. cbn [app].
              refine (req_trans _ _ _ (IH _ _ st _ _ _ _ Hcr Hoffs _ _ _ _ _ _ Hpos Hstart _ E2 HF) _); cbn [g_pbits g_block g_off g_known app hoff]; rewrite ?EB; cbn [app hoff bsize fold_right].
              all: try rewrite Ep.
              ** exact Hpb.
-             ** constructor; [congruence|constructor].
+             ** unfold inclass; constructor; [congruence|constructor].
              ** cbn [contig]. rewrite Eo. split; [exact I|exact I].
-             ** intros _. unfold cend. cbn [fold_left]. rewrite Ep, Eo, <- Hfo. cbn [option_map]. try (f_equal; lia); reflexivity.
+             ** intros _. unfold cend. cbn [fold_left]. rewrite Eo, <- Hfo. cbn [option_map]. try (f_equal; lia); reflexivity.
              ** intros x Hx. rewrite <- Hfo in Hx. discriminate.
              ** intros Hk. pose proof (Hknown Hk) as Hk'. cbn [bsize fold_right] in Hk'. lia.
              ** lia.
              ** assert (Hs : seq_blockS [f] st = do st1 <- seq_blockS [] st; read_member f st1)
-                  by (apply (blockS_snoc [] f st (Forall_nil _) Hpos); intros o Ho; rewrite Eo in Ho; discriminate).
+                  by (apply (blockS_snoc [] f st (Forall_nil _) ltac:(cbn [bsize fold_right]; lia) Hpos); intros o Ho; rewrite Eo in Ho; discriminate).
                 rewrite Hs. apply req_refl.
         * (* the block goes on *)
           injection E1 as <- <-. cbn [app]. rewrite <- EB in *.
           assert (Hne : g_block gst <> []) by (rewrite EB; discriminate).
           refine (req_trans _ _ _ (IH _ _ st _ _ _ _ Hcr Hoffs _ _ _ _ _ _ Hpos Hstart _ E2 HF) _); cbn [g_pbits g_block g_off g_known].
           -- exact Hpb.
-          -- apply Forall_app. split; [exact HB|]. constructor; [congruence|constructor].
+          -- apply Forall_app. split; [exact HB|]. unfold inclass; constructor; [congruence|constructor].
           -- assert (Hh : hoff (g_block gst ++ [f]) = hoff (g_block gst)) by (rewrite EB; reflexivity). rewrite Hh.
              apply contig_app; [exact Hcont|]. destruct (f_off f) as [o|] eqn:Eo; [|exact I]. fold (cend (hoff (g_block gst)) (g_block gst)). rewrite (Hcend Hne). now rewrite Hfo.
-          -- intros _. assert (Hh : hoff (g_block gst ++ [f]) = hoff (g_block gst)) by (rewrite EB; reflexivity). rewrite Hh, cend_snoc, Ep, (Hcend Hne). destruct off; cbn [option_map]; [f_equal; lia|reflexivity].
+          -- intros _. assert (Hh : hoff (g_block gst ++ [f]) = hoff (g_block gst)) by (rewrite EB; reflexivity). rewrite Hh, cend_snoc, (Hcend Hne). destruct off; cbn [option_map]; [f_equal; lia|reflexivity].
           -- intros x Hx. destruct off as [x0|]; [|discriminate]. cbn [option_map] in Hx. injection Hx as <-. destruct (Hoff x0 eq_refl) as [H0 [Hg Hk]]. repeat split; [lia|lia|]. intros _. now apply Hk.
-          -- intros Hk. rewrite bsize_snoc, Ep. pose proof (Hknown Hk). lia.
-          -- rewrite bsize_snoc, Ep. lia.
-          -- rewrite (blockS_snoc (g_block gst) f st HB Hpos).
+          -- intros Hk. rewrite bsize_snoc. pose proof (Hknown Hk). lia.
+          -- rewrite bsize_snoc. lia.
+          -- rewrite (blockS_snoc (g_block gst) f st HB ltac:(lia) Hpos).
              ++ destruct (seq_blockS (g_block gst) st); cbn [bind seq_loop]; apply req_refl.
              ++ intros o Ho. rewrite Hfo in Ho. destruct (Hoff o Ho) as [_ [Hg Hk]]. rewrite <- Hg. apply Hknown. now apply Hk.
       + (* a member with a reader of its own *)
         destruct Hkind as [Hk|[Hsub [Hsz Hnn]]]; [congruence|]. subst off.
+        assert (Hm0 : msize c (f_ty f) = 0) by (unfold msize; now rewrite Ep). rewrite Hm0 in Hbound.
         destruct (plan_step_sub f gst P1 gst1 Hsub Hbits Hpb E1) as [Pb [stb [Hfl [-> ->]]]].
         destruct (flush_sound gst Pb stb st HB Hcont ltac:(lia) Hpos Hfl) as [RB ->].
         rewrite <- !app_assoc, run_instrs_app. cbn [seq_loop].
         apply req_bind'; [exact RB|]. intros st1 Est1.
         assert (Hp1 : p_pos st1 = p_pos st + bsize c (g_block gst)).
         { unfold seq_blockS in Est1. destruct (seq_block c fuel (g_block gst) s (p_pos st) st) as [[sx qx]|] eqn:Eq; [|discriminate]. cbn [bind fst snd] in Est1. injection Est1 as <-.
-          cbn [set_pos p_pos]. exact (seq_block_end c fuel _ _ _ _ _ _ Hpos HB Eq). }
+          cbn [set_pos p_pos]. exact (seq_block_end c fuel _ _ _ _ _ _ Hpos HB ltac:(lia) Eq). }
         set (stb := mkGS (g_off gst) [] (g_pbits gst) (g_btype gst) (g_brem gst) (g_roll gst) (g_known gst)) in *.
         assert (Hrun : exists stc q, snd (align_to_field c false f stb) = stc /\ g_block stc = [] /\ g_pbits stc = false /\
                    (forall x, f_off f = Some x -> g_off stc = x) /\ 0 <= q /\
